@@ -111,6 +111,11 @@ func (fx *FnCtx) oblige(st *State, name, kind string, cl *Clause, goal string) {
 		}
 		return
 	}
+	if fx.con != nil && fx.con.AssumePre && (kind == "pre" || kind == "safety") {
+		fx.note("NOT CHECKED (assume-callee-pre): callee preconditions and run-time checks of this body are assumed; only its own clauses, invariants and lock discipline are verified")
+		fx.sol.Assert(goal)
+		return
+	}
 	o := fx.obls[name]
 	if o == nil {
 		o = &Obligation{Name: name, Kind: kind, Func: shortFn(fx.fn.String()), Status: "discharged", Backends: map[string]int{}}
